@@ -10,11 +10,14 @@
    [ord n l] the iteration order of a HashMap/HashSet.  Where needed the hypotheses are
    "rnd is injective" (no key is drawn twice) and "ord n l is a permutation of l".
 
-   The nine commands implemented by a script.ds are specified (spec) but NOT covered by
-   C12_refines: they are tied to the code by the correspondence run only (partial). *)
+   Of the nine commands implemented by a script.ds, the four without loops, array_contains and
+   set_from_array are translated by hand (CollectionsScripts.v) and proved (C12_refines_script,
+   C12_refines_array_contains, C12_refines_set_from_array); array_concat, array_join and
+   map_contains_value are specified (spec) but tied to the code by the correspondence run only
+   (partial). *)
 From stdpp Require Import gmap list.
 From Coq Require Import NArith ZArith.
-Require Import DS.Collections DS.CollectionsSpec DS.CollectionsTables DS.CollectionsProof.
+Require Import DS.Collections DS.CollectionsScripts DS.CollectionsSpec DS.CollectionsTables DS.CollectionsProof.
 Require DSG.GenCollections.
 
 (* the table regenerated from the source (directory, aliases, script-or-native, minimal argument
@@ -37,6 +40,33 @@ Proof. exact refines_step. Qed.
 Theorem C12_refines_run : forall rnd ord ops s,
   Forall (fun o => native o.1 = true) ops -> run_h rnd ord ops s = Done (run_s rnd ord ops s).
 Proof. exact refines_run. Qed.
+
+(* the four loop-free script commands (array_is_empty, map_is_empty, set_is_empty, map_contains_key),
+   translated by hand into compositions of the native models (CollectionsScripts.v), compute what
+   the specification says; histories over natives and these four agree with the specification *)
+Theorem C12_refines_script : forall rnd ord c args s o,
+  loop_free_script c = true -> step_script rnd c args s = Some o -> o = Done (step_s rnd ord c args s).
+Proof. exact refines_script. Qed.
+(* array_contains, translated with its for-in loop (the handle variable is expanded again at every
+   test, the script blanks it to leave the loop): the least index holding the value, or "false" —
+   provided the empty string is not the name of a live collection, which holds in every reachable
+   state when no drawn key is empty *)
+Theorem C12_refines_array_contains : forall rnd ord args s,
+  hs s !! ([] : str) = None ->
+  script_array_contains args s = Done (step_s rnd ord CArrayContains args s).
+Proof. exact rs_array_contains. Qed.
+(* set_from_array, translated with its loop of set_put calls: a new set holding exactly the items —
+   provided the key drawn for it is not live, which holds in every reachable state (C12_distinct) *)
+Theorem C12_refines_set_from_array : forall rnd ord args s,
+  hs s !! rnd (draws s) = None ->
+  script_set_from_array rnd args s = Done (step_s rnd ord CSetFromArray args s).
+Proof. exact rs_set_from_array. Qed.
+Theorem C12_no_empty_handle : forall rnd ord s,
+  (forall i, rnd i <> []) -> reachable rnd ord s -> hs s !! ([] : str) = None.
+Proof. exact reachable_no_empty. Qed.
+Theorem C12_refines_run_proved : forall rnd ord ops s,
+  Forall (fun o => proved o.1 = true) ops -> run_h rnd ord ops s = Done (run_s rnd ord ops s).
+Proof. exact refines_run_proved. Qed.
 
 Theorem C12_nopanic : forall rnd ord c args s o,
   step_m rnd ord c args s = Some o -> exists r, o = Done r.
@@ -140,6 +170,21 @@ Theorem C12_members_perm : forall ord,
   forall s h x, look_set (hs s) h = Found x ->
   exists ks, spec ord CSetToArray [h] s = SNew (HList (EStr <$> ks)) /\ ks ≡ₚ elements x.
 Proof. exact members_perm. Qed.
+
+(* what the specification of three loop scripts means in plain terms *)
+Theorem C12_array_contains_least : forall v l i n,
+  find_index v l i = Some n <->
+  exists j, n = (i + j)%nat /\ elem_str <$> l !! j = Some v /\
+            forall j', (j' < j)%nat -> elem_str <$> l !! j' <> Some v.
+Proof. exact find_index_spec. Qed.
+Theorem C12_array_contains_none : forall v l i, find_index v l i = None <-> v ∉ (elem_str <$> l).
+Proof. exact find_index_none. Qed.
+Theorem C12_map_contains_value_spec : forall (v : str) (m : gmap str elem),
+  v ∈ map_values m <-> exists k e, m !! k = Some e /\ elem_str e = v.
+Proof. exact map_values_spec. Qed.
+Theorem C12_set_from_array_spec : forall (l : list elem) (v : str),
+  v ∈ (list_to_set (elem_str <$> l) : gset str) <-> exists e, e ∈ l /\ elem_str e = v.
+Proof. exact set_from_array_spec. Qed.
 
 (* the oracle hypotheses are satisfiable *)
 Theorem C12_oracles_exist :
